@@ -212,7 +212,7 @@ def _eq_of(engine, st, args, node, kw):
     return V(Key, [engine.fresh(st, "preproc_eq", node, Ty.IntS)])
 
 
-CNT = "colcount(self.inputs[i], 0, {k}, len(self.inputs[i]))"
+CNT = "count_in(self.inputs[i], {k}, len(self.inputs[i]))"
 leaf_legs = Contract(
     target="cotengra.core:ContractionTree.compute_leaf_legs",
     variant="unsliced",
@@ -232,8 +232,8 @@ leaf_legs = Contract(
         0: Loop(
             pos="t",
             inv=[
-                "forall(lambda k: get(legs, k, 0) == colcount(self.inputs[i], 0, k, t))",
-                "forall(lambda k: (k in legs) == (colcount(self.inputs[i], 0, k, t) >= 1))",
+                "forall(lambda k: get(legs, k, 0) == count_in(self.inputs[i], k, t))",
+                "forall(lambda k: (k in legs) == (count_in(self.inputs[i], k, t) >= 1))",
             ],
         )
     },
